@@ -122,6 +122,7 @@ type Frame struct {
 	pkg    *types.Package
 	localNames map[string][]*ssa.Alloc
 	parent *Frame
+	loops  map[*ssa.BasicBlock]*loopInfo
 	inl    string // "@callee@callee2" chain for inlined frames
 	entryScope *Scope
 }
@@ -463,6 +464,7 @@ func (fr *Frame) execBody(st0 *State) (*State, []Val) {
 		panic(unsupported("function without body: " + fn.String()))
 	}
 	loops := findLoops(fn)
+	fr.loops = loops
 	for _, li := range loops {
 		if fr.fc != nil {
 			li.spec = fr.fc.Loops[li.ordinal]
@@ -690,6 +692,24 @@ func (fr *Frame) enterLoop(st *State, li *loopInfo, run *loopRun) *State {
 		nv := fr.fresh("lp_"+allocName(a), old.T)
 		nst.cells[id] = nv
 		fr.assumeWF(nst, nv)
+	}
+	if fr.parent == nil && fr.fc != nil {
+		for _, gu := range fr.fc.GhostUps {
+			assignedHere := false
+			for _, a := range fr.cellsAssignedIn(li) {
+				if a.Comment == gu.Local {
+					assignedHere = true
+				}
+			}
+			if !assignedHere || (gu.Loop != 0 && gu.Loop != li.ordinal && !fr.loopNested(gu.Loop, li)) {
+				continue
+			}
+			if old, ok := nst.ghost[gu.Name]; ok && old.K == KNormal {
+				nv := fr.fresh("gh_"+gu.Name, old.T)
+				fr.assumeWF(nst, nv)
+				nst.ghost[gu.Name] = nv
+			}
+		}
 	}
 	run.preHeaps = map[string]Term{}
 	ws := fr.loopWriteSet(li)
@@ -920,6 +940,16 @@ func (fr *Frame) loopHasCalls(li *loopInfo) bool {
 				}
 				return true
 			}
+		}
+	}
+	return false
+}
+
+// loopNested: loop #inner lies inside li.
+func (fr *Frame) loopNested(inner int, li *loopInfo) bool {
+	for _, l2 := range fr.loops {
+		if l2.ordinal == inner {
+			return li.blocks[l2.header]
 		}
 	}
 	return false
